@@ -1,7 +1,6 @@
 import TxdbusModel.Bus.Route
 import TxdbusModel.Route.Rule
 import TxdbusModel.Route.Text
-import TxdbusModel.Gen.BusRoute
 /-
 C14 x C12 (extension 2026-09-30) - the bus model with the FULL match-rule language.
 
@@ -13,12 +12,15 @@ C14 x C12 (extension 2026-09-30) - the bus model with the FULL match-rule langua
 Every arrow is C12's code model, imported here unchanged:
   `Route.parseRuleGen`  (Route/Text.lean)   text -> kwargs   (`RuleArgs`)
   `Route.mkRule`        (Route/Rule.lean)   kwargs -> stored `Rule` (tables generated from router.py)
-  `Route.Rule.match`    (Route/Rule.lean)   the `simple` loop, path_namespace, args, arg_paths, the catch-all;
-                                            `sender` and `arg0namespace` are stored and not evaluated
-What is added: how the bus's message OBJECT looks to `Rule.match` (`ruleView`), the rule type of the bus model
-(`FullRule` = the kwargs `dbus_AddMatch` computed), and the `arg0namespace` test of the repaired router
-(fixes/C14-05; `Gen.BusRoute.evaluatesArg0ns`, probed from the source, says which router the tree has).
-Core Lean only.
+  `Route.Rule.matchWith b` (Route/Rule.lean) `Rule.match` (the `simple` loop, path_namespace, args, arg_paths, the
+                                            catch-all; `sender` stored and not evaluated) followed, when `b`, by the
+                                            `arg0namespace` clause of fixes/C14-05 (`Route.matchArg0ns`); `b = false` is
+                                            txdbus as found.  `Gen.Route.evaluatesArg0ns` (C12's table, probed from
+                                            router.py on every run) says which router the tree has - ONE switch for both
+                                            properties.
+What is added here: how the bus's message OBJECT looks to `Rule.match` (`ruleView`), the rule type of the bus model
+(`FullRule` = the kwargs `dbus_AddMatch` computed), `dbus_AddMatch` from the text to the registration (`addMatchOp`,
+`textOp`).  Core Lean only.
 -/
 namespace Txdbus.BusRoute
 
@@ -49,45 +51,12 @@ def ruleView (m : Msg) : Txdbus.Route.Msg :=
   { mtype := m.mtype.num, path := optAttr m.path, iface := optAttr m.iface, member := memberAttr m.member,
     dest := optAttr m.dest, sender := optAttr m.sender, body := m.args }
 
-/-- `name == namespace or name.startswith(namespace + '.')` (the `_inBusNamespace` of fixes/C14-05). -/
-def inBusNamespace (name ns : Str) : Bool :=
-  name == ns || (ns ++ ['.']).isPrefixOf name
-
-/-- The `arg0namespace` test of the repaired `Rule.match` (fixes/C14-05), placed where the source has its
-`XXX arg0namespace` comment:
-
-    if hasattr(self, 'arg0namespace'):
-        if (len(body) == 0 or not isinstance(body[0], str)
-                or not _inBusNamespace(body[0], self.arg0namespace)):
-            return
--/
-def matchArg0ns (r : Rule) (body : List Arg) : Option Outcome :=
-  match r.attrs.lookup "arg0namespace".toList with
-  | none => none
-  | some (PyVal.str ns) =>
-    match body.head? with
-    | some (Arg.str s) => if inBusNamespace s ns then none else some .skip
-    | _ => some .skip
-  | some _ => some .err
-
-/-- `Rule.match(m)` of the router the bus uses.  `evalArg0 = false`: txdbus as found (C12's `Rule.match`, the
-`arg0namespace` attribute is never read); `true`: the router after fixes/C14-05. -/
-def fullMatch (evalArg0 : Bool) (r : Rule) (v : Txdbus.Route.Msg) : Outcome :=
-  match r.match v with
-  | .call =>
-    if evalArg0 then
-      match matchArg0ns r (v.body.getD []) with
-      | some o => o
-      | none => .call
-    else .call
-  | o => o
-
 /-- Does the rule stored for the kwargs `a` hand the message object `m` to `caller.sendMessage`?
 `mkRule` cannot fail with the tables of the current source (`Route.mkRule_cur`); a failure is "no callback"
 here and an explicit error in the driver. -/
 def FullRule.holdsWith (T : Tables) (evalArg0 : Bool) (a : FullRule) (m : Msg) : Bool :=
   match mkRule T a with
-  | .ok r => fullMatch evalArg0 r (ruleView m) == .call
+  | .ok r => r.matchWith evalArg0 (ruleView m) == .call
   | .error _ => false
 
 /-- The repaired bus (F21, F22) with the full rule language. -/
@@ -98,9 +67,9 @@ def fullCfg (evalArg0 : Bool) : Cfg FullRule :=
 def fullOriginal (evalArg0 : Bool) : Cfg FullRule :=
   { holds := FullRule.holdsWith Tables.gen evalArg0, routeUnicast := true, recordRuleId := false }
 
-/-- The configuration of the tree under test (the switch is probed from router.py on every run). -/
-def fullGen : Cfg FullRule := fullCfg Txdbus.Gen.BusRoute.evaluatesArg0ns
-def fullOriginalGen : Cfg FullRule := fullOriginal Txdbus.Gen.BusRoute.evaluatesArg0ns
+/-- The configuration of the tree under test (C12's switch, probed from router.py on every run). -/
+def fullGen : Cfg FullRule := fullCfg Txdbus.Gen.Route.evaluatesArg0ns
+def fullOriginalGen : Cfg FullRule := fullOriginal Txdbus.Gen.Route.evaluatesArg0ns
 
 /-! ### `Bus.dbus_AddMatch(rule)`: from the text to the registration -/
 
@@ -120,6 +89,38 @@ def ruleTextOf (m : Msg) : Option Str :=
   match m.args with
   | some [Arg.str t] => some t
   | _ => none
+
+/-- A method call to the bus whose member is AddMatch. -/
+def isAddMatchCall (m : Msg) : Bool :=
+  m.mtype == .call && m.dest == some busName && m.member == some "AddMatch".toList
+
+/-- The operation of an AddMatch event as the MODEL derives it from the text the call carries; `observed` (what the
+harness saw at the real object dispatch) decides only what the model does not: whether the call reached
+`dbus_AddMatch` at all (C10's dispatch), and the rule when the text is outside the modelled domain of `int()`.
+* observed `addMatch r`: the text parses to `a` -> `addMatch a`; the text is a ValueError -> `exec []`; no text /
+  out of domain -> `addMatch r`;
+* observed `exec []` on an AddMatch call whose text parses -> `addMatch a` (the method ran: it registers);
+* anything else: as observed. -/
+def textOp (m : Msg) (observed : BusOp FullRule) : BusOp FullRule :=
+  match observed with
+  | .addMatch r =>
+    match (ruleTextOf m).map addMatchOp with
+    | some (some op) => op
+    | _ => .addMatch r
+  | .exec [] =>
+    if isAddMatchCall m then
+      match (ruleTextOf m).map addMatchOp with
+      | some (some (.addMatch a)) => .addMatch a
+      | _ => observed
+    else observed
+  | _ => observed
+
+/-- The event's operation is what the model reads from the text: every registration is `dbus_AddMatch`'s reading
+of the rule text in the call, and an executed AddMatch that registers nothing carries a text that is no rule. -/
+def Event.textOK : Event FullRule → Prop
+  | .msg _ m op => textOp m op = op ∧
+      (∀ r, op = .addMatch r → ∃ t, ruleTextOf m = some t ∧ addMatchOp t = some (.addMatch r))
+  | _ => True
 
 /-! ### the simple rules of the first version of this model, embedded -/
 
